@@ -6,6 +6,7 @@ import (
 	"encoding/binary"
 	"errors"
 	"fmt"
+	"math/big"
 	"math/bits"
 	"slices"
 	"sort"
@@ -339,4 +340,65 @@ outer:
 	}
 	vfNote("tot", tot)
 	vfCover("end")
+}
+
+// Integer<->bit-vector bridge: theory-mode big.Int values that originate from machine
+// integers and byte strings, pushed through the shift/mask/div/mod/compare/truncate rewrites
+// of the term layer; every noted value is compared with the native run.
+//
+//vf:bigint theory
+//vf:unwind 80
+func VF_SELF_bigbridge() {
+	r := vfChoose("region", 0, 3)
+	x := vfI64("x")
+	bs := vfBytes("bs", 3)
+	switch r {
+	case 0:
+		vfAssume(x < -70000)
+	case 1:
+		vfAssume(x > 70000)
+	case 2:
+		vfAssume(x >= -300 && x < 0)
+	case 3:
+		vfAssume(x >= 0 && x < 300)
+	}
+	vfAssume((bs[2] >= 0x80) == (r%2 == 0))
+	vfAssume(bs[0] != 0 && bs[1] != 0)
+	n := big.NewInt(x)
+	m := new(big.Int)
+	for i := 2; i >= 0; i-- {
+		m = new(big.Int).Add(new(big.Int).Lsh(m, 8), new(big.Int).SetUint64(uint64(bs[i])))
+	}
+	if bs[2] >= 0x80 {
+		m = new(big.Int).Sub(m, big.NewInt(1<<24))
+	}
+	k255, k256, k64k := big.NewInt(255), big.NewInt(256), big.NewInt(65536)
+	vfNote("n", n)
+	vfNote("m", m)
+	vfNote("n>>8", new(big.Int).Rsh(n, 8))
+	vfNote("m>>8", new(big.Int).Rsh(m, 8))
+	vfNote("m>>30", new(big.Int).Rsh(m, 30))
+	vfNote("n&255", new(big.Int).And(n, k255))
+	vfNote("m&255", new(big.Int).And(m, k255))
+	vfNote("(m>>8)&255", new(big.Int).And(new(big.Int).Rsh(m, 8), k255))
+	vfNote("n mod 256", new(big.Int).Mod(n, k256))
+	vfNote("m mod 65536", new(big.Int).Mod(m, k64k))
+	vfNote("(m-65536) div 256", new(big.Int).Div(new(big.Int).Sub(m, k64k), k256))
+	vfNote("(m-65536) mod 256", new(big.Int).Mod(new(big.Int).Sub(m, k64k), k256))
+	vfNote("(n+65536) mod 65536", new(big.Int).Mod(new(big.Int).Add(n, k64k), k64k))
+	vfNote("m mod 2^40", new(big.Int).Mod(m, new(big.Int).Lsh(big.NewInt(1), 40)))
+	vfNote("n.Int64", n.Int64())
+	vfNote("m.Int64", m.Int64())
+	vfNote("(m-65536).Int64", new(big.Int).Sub(m, k64k).Int64())
+	vfNote("byte(m)", byte(m.Int64()))
+	vfNote("uint16(m>>4)", uint16(new(big.Int).Rsh(m, 4).Uint64()))
+	vfNote("m<n", m.Cmp(n) < 0)
+	vfNote("m<-128", m.Cmp(big.NewInt(-128)) < 0)
+	vfNote("m-65536<-70000", new(big.Int).Sub(m, k64k).Cmp(big.NewInt(-70000)) < 0)
+	vfNote("n==300", n.Cmp(big.NewInt(300)) == 0)
+	vfNote("m+n", new(big.Int).Add(m, n))
+	vfNote("m.IsInt64", m.IsInt64())
+	vfNote("n.Sign", n.Sign())
+	vfNote("m.BitLen", m.BitLen())
+	vfCover("end-region-" + string(rune('0'+r)))
 }
